@@ -22,9 +22,10 @@ def sh(cmd, **kw):
 sh(f"cd {wt} && git diff -- jsonargparse > patch.diff")
 env = f"PYTHONPATH={wt}"
 with_change = sh(f"cd {wt} && {env} /venv/bin/python demo.py")
-sh(f"cd {wt} && git stash -q -- jsonargparse")
+# not `git stash`: the stash is shared by all worktrees of a repository, parallel runs would swap their changes
+sh(f"cd {wt} && git apply -R patch.diff")
 without = sh(f"cd {wt} && {env} /venv/bin/python demo.py")
-sh(f"cd {wt} && git stash pop -q")
+sh(f"cd {wt} && git apply patch.diff")
 again = sh(f"cd {wt} && git diff --stat -- jsonargparse")
 meta = dict(name=name, breaks=props, demo_with_change_rc=with_change.returncode, demo_without_change_rc=without.returncode,
             demo_with_change_tail=with_change.stdout[-600:], diffstat=again.stdout.strip())
